@@ -85,7 +85,7 @@ def observable_state(w, repo):
     st["in_progress"] = in_progress_state(repo)
     try:
         with open(w.hooks_log) as f:
-            st["hooks_log"] = f.read()
+            st["hooks_log"] = f.read().replace(w.root, "{ROOT}")
     except OSError:
         st["hooks_log"] = ""
     return st
